@@ -80,7 +80,7 @@ ENGINES = [
     {"name": "inputs", "path": "harness/inputs", "serves_properties": ["C17"], "kind_free_text": "pure generated-input properties (rapid) and native fuzz targets"},
     {"name": "storefs", "path": "harness/storefs", "serves_properties": ["C09", "C10"], "kind_free_text": "real JsonDataStore on disk: racing readers, SIGKILLed saver child (cmd/vhelper), strace fault injection"},
     {"name": "procs", "path": "harness/procs", "serves_properties": ["C18", "C19", "C20"], "kind_free_text": "real TaskRunner + real processes + helper binary cmd/vhelper"},
-    {"name": "stress", "path": "harness/stress", "serves_properties": ["C01", "C03", "C05", "C06", "C07", "C13"], "kind_free_text": "free-running concurrent workloads and forced-overlap request bursts, test binary built with -race"},
+    {"name": "stress", "path": "harness/stress", "serves_properties": ["C01", "C03", "C05", "C06", "C07", "C13", "C16"], "kind_free_text": "free-running concurrent workloads and forced-overlap request bursts, test binary built with -race"},
     {"name": "httpauth", "path": "harness/httpauth", "serves_properties": ["C14"], "kind_free_text": "router walk + generated credentials against the server's http.Handler"},
 ]
 
